@@ -1,6 +1,7 @@
 // C08 driver: rANS symbol entropy coding.  BUILD-KINDS: plain asan
 //   drv_c08 replay  <rows.ndjson>   rows emitted by TLC (MC_RansSym): run RAnsEncoder<pb>/RAnsDecoder<pb> on the same table/sequence
 //   drv_c08 symbols <seed> <n>      EncodeSymbols -> sentinel -> DecodeSymbols end to end (each case in a forked child)
+//   drv_c08 short   <seed> <n>      n very short blocks in-process (final-state flush boundaries); mismatches and a sample are written
 //   drv_c08 steps   <seed> <n>      step-level rans_write records at production precision (state observed through a copy + write_end)
 //   drv_c08 create  <seed> <n>      RAnsSymbolEncoder<b>::Create: frequency table -> serialised probability table
 //   drv_c08 wide                    values needing 32 bits / spanning >= 2^31 (F6 family), forked
@@ -189,7 +190,51 @@ static int run_symbols(uint64_t seed, long n) {
     for (long k = 0; k < rest; ++k) c.v.push_back(1 + (uint32_t)(k % others));
     forked(c, "raw-prob-boundary");
   }
+  // two equally frequent dominant symbols plus a handful of singletons: the precision taken back from over-allocated probabilities has to be
+  // spread over the two dominant entries (odd and even surpluses)
+  for (int N : {7, 50, 500, 5000, 50000}) {
+    if (N > 5000 && n < 1000) continue;
+    for (int k = 1; k <= 6; ++k) {
+      SymCase c; c.nc = 1; c.dist = "two-dominant";
+      for (int i = 0; i < N; ++i) { c.v.push_back(0); c.v.push_back(1); }
+      for (int i = 0; i < k; ++i) c.v.push_back(2 + i);
+      for (int cfg = 0; cfg < (N >= 5000 ? 3 : 6); ++cfg) {
+        static const int levels[] = {7, 0, 10, 5, -1, -1}, methods[] = {1, 1, 1, 1, 0, -1};
+        c.level = levels[cfg]; c.method = methods[cfg];
+        forked(c, "two-dominant");
+      }
+    }
+  }
   for (long i = 0; i < n; ++i) forked(gen_case(r, true), "random");
+  return 0;
+}
+
+// very many very short blocks, in-process: the final coder state sweeps its whole range, including the exact boundaries between the 1 / 2 / 3 / 4-byte
+// forms in which it is flushed (one block in a few hundred thousand ends on such a boundary).  Mismatches and every 5000th block are written out.
+static int run_short(uint64_t seed, long n) {
+  vrt::Rng r(seed);
+  long bad = 0;
+  for (long i = 0; i < n; ++i) {
+    SymCase c; c.nc = 1; c.dist = "short";
+    const int alpha = r.range(2, 6), len = r.range(2, 14);
+    const int skew = r.range(0, 3);
+    for (int k = 0; k < len; ++k) { int v = r.range(0, alpha - 1); if (skew && r.coin(skew, 4)) v = 0; c.v.push_back((uint32_t)v); }
+    c.level = r.range(0, 10); c.method = r.coin(3, 4) ? 1 : (r.coin() ? 0 : -1);
+    Options opt;
+    SetSymbolEncodingCompressionLevel(&opt, c.level);
+    if (c.method >= 0) SetSymbolEncodingMethod(&opt, (SymbolCodingMethod)c.method);
+    EncoderBuffer eb;
+    const bool eok = EncodeSymbols(c.v.data(), (int)c.v.size(), 1, &opt, &eb);
+    bool same = false;
+    if (eok) {
+      DecoderBuffer db; db.Init(eb.data(), eb.size()); db.set_bitstream_version(0x0202);
+      std::vector<uint32_t> got(c.v.size(), 0xDEADBEEFu);
+      same = DecodeSymbols((uint32_t)c.v.size(), 1, &db, got.data()) && got == c.v && db.remaining_size() == 0;
+    }
+    if (!eok || !same) ++bad;
+    if (!eok || !same || i % 5000 == 0) { if (bad <= 200 || (eok && same)) emit_sym(c); }
+  }
+  fprintf(stderr, "STATS short=%ld bad=%ld\n", n, bad);
   return 0;
 }
 
@@ -339,6 +384,7 @@ static int run_create(uint64_t seed, long n) {
 int main(int argc, char **argv) {
   if (argc >= 3 && !strcmp(argv[1], "replay")) return run_replay(argv[2]);
   if (argc >= 4 && !strcmp(argv[1], "symbols")) return run_symbols(strtoull(argv[2], 0, 10), atol(argv[3]));
+  if (argc >= 4 && !strcmp(argv[1], "short")) return run_short(strtoull(argv[2], 0, 10), atol(argv[3]));
   if (argc >= 4 && !strcmp(argv[1], "steps")) return run_steps(strtoull(argv[2], 0, 10), atol(argv[3]));
   if (argc >= 4 && !strcmp(argv[1], "create")) return run_create(strtoull(argv[2], 0, 10), atol(argv[3]));
   if (argc >= 2 && !strcmp(argv[1], "wide")) return run_wide();
